@@ -8,7 +8,8 @@ from props.mutcommon import compare_mutate, py_mutate, check_wf
 
 RULE = ('random circuits through the public API over all gate types (comparison gates with identical operands, '
         'L*/R* gates, constants with 0/1/2 operands, gates that are outputs or members of one/several/nested '
-        'blocks), >=1 input (plus the documented no-input error case) -> into_bench; result compared exactly '
+        'blocks), >=1 input (plus the documented no-input error case) -> into_bench (and: a gate outside the basis '
+        'added to the converted object, converted again); result compared exactly '
         'with the model (gates, users index, blocks, fresh labels via pinned uuid); non-trivial = contains a '
         'gate outside the bench basis; distinct by circuit')
 ASSUMPTIONS = ['WFU circuits with at least one input (the no-input case is checked for the documented error only)']
@@ -80,6 +81,9 @@ def search(ctx):
             t2 = py_exec({'op': 'truth_table', 'c': r})
             if t1 != t2:
                 ctx.violation('into_bench.truth_table', f'truth table changed: {t1} -> {t2}', input={'c': j})
+        # the same object converted, extended by a gate outside the basis, converted again
+        if k % 4 == 0 and j['inputs']:
+            again(ctx, rng, j)
         # graphviz path: must not raise nor modify self
         if k % 25 == 0:
             try:
@@ -93,6 +97,38 @@ def search(ctx):
     for (j, r), verdict in zip(todo, check_wf(ctx, [r for _, r in todo])):
         if verdict != 'ok':
             ctx.violation('into_bench.not_wellformed', f'converted circuit is not well formed: {verdict}', input={'c': j})
+
+
+def again(ctx, rng, j):
+    from cirbo.core.circuit import gate as G
+    try:
+        c = circ_from_json(j)
+        c.into_bench()
+        labels = list(c.gates)
+        t = rng.choice([G.GT, G.LT, G.GEQ, G.LEQ, G.LIFF, G.RIFF, G.LNOT, G.RNOT, G.ALWAYS_TRUE, G.ALWAYS_FALSE])
+        ops = () if t in (G.ALWAYS_TRUE, G.ALWAYS_FALSE) else (rng.choice(labels), rng.choice(labels))
+        how = rng.choice(['emplace_gate', 'add_gate'])
+        if how == 'emplace_gate':
+            c.emplace_gate('again_new', t, ops)
+        else:
+            c.add_gate(G.Gate('again_new', t, ops))
+        c.mark_as_output('again_new')
+        mid = circ_to_json(c)
+        c.into_bench()
+        r = circ_to_json(c)
+    except Exception as e:  # noqa: BLE001
+        ctx.violation('into_bench.again_raises', f'second conversion of the same object raised {err_name(e)}', input={'c': j})
+        return
+    ctx.count('again:' + how)
+    bad = sorted({g[1] for g in r['gates']} - BENCH_TYPES)
+    if bad:
+        ctx.violation('into_bench.again_types', f'gate types {bad} remain after converting the object a second time '
+                      f'(a {t.name} gate was added by {how} after the first conversion)', input={'c': j, 'added': [t.name, list(ops), how]})
+        return
+    if r['inputs'] != mid['inputs'] or r['outputs'] != mid['outputs'] or \
+            py_exec({'op': 'truth_table', 'c': mid}) != py_exec({'op': 'truth_table', 'c': r}):
+        ctx.violation('into_bench.again_function', 'second conversion of the same object changed the interface or the truth table',
+                      input={'c': j, 'added': [t.name, list(ops), how]})
 
 
 def replay(ctx, rp):
